@@ -116,6 +116,10 @@ EnvOf(s) == [v \in {s[i].id : i \in DOMAIN s} |-> (LET i == CHOOSE j \in DOMAIN 
 Producer(v) == CHOOSE i \in DOMAIN cur.nodes : \E j \in DOMAIN cur.nodes[i].outs : cur.nodes[i].outs[j] = v
 OutIndex(v) == LET nd == cur.nodes[Producer(v)] IN (CHOOSE j \in DOMAIN nd.outs : nd.outs[j] = v) - 1
 
+\* among wrongly labelled values report the one produced earliest in the plan
+\* (the operator where the wrong label originates, not a consumer that copies it)
+FirstByPlan(S) == CHOOSE v \in S : \A w \in S : Producer(v) < Producer(w) \/ (Producer(v) = Producer(w) /\ v <= w)
+
 Sig12G(v, what, predicted, actual) ==
   [prop |-> "C12", rel |-> what, op |-> cur.nodes[Producer(v)].op, key |-> cur.key, out |-> OutIndex(v),
    rule |-> "", predicted |-> predicted, actual |-> actual]
@@ -135,22 +139,31 @@ Run12G ==
                               spec[v] # "unknown" /\ actual[v] # "unknown" /\ spec[v] # actual[v]}
               wrongImpl == {v \in DOMAIN actual \cap DOMAIN impl :
                               impl[v] # "unknown" /\ actual[v] # "unknown" /\ impl[v] # actual[v]}
+              \* the label the loaded, optimised model shows for a surviving value
+              \* (Model::node_info(..).dtype(), written back by the optimiser)
+              decl == EnvOf(e.declared)
+              wrongDecl == {v \in DOMAIN actual \cap DOMAIN decl :
+                              decl[v] # "unknown" /\ actual[v] # "unknown" /\ decl[v] # actual[v]}
               \* CastElimination deletes casts on the strength of the labels: the
               \* optimised model must still produce outputs of the same type
               optDiff == IF e.opt_ok THEN OutputsDiff(e.outs_unopt, e.outs_opt) ELSE "none"
               rec == [case |-> cur, run |-> e]
               b1 == IF wrongImpl # {}
-                    THEN LET v == FirstOf(wrongImpl) IN
+                    THEN LET v == FirstByPlan(wrongImpl) IN
                          Flag(bad, FALSE, Sig12G(v, "graph_inferred", impl[v], actual[v]), rec)
                     ELSE bad
               b2 == IF wrongSpec # {}
-                    THEN LET v == FirstOf(wrongSpec) IN
+                    THEN LET v == FirstByPlan(wrongSpec) IN
                          Flag(b1, FALSE, Sig12G(v, "graph_rules", spec[v], actual[v]), rec)
                     ELSE b1
               b3 == IF optDiff \in {"count", "dtype", "shape"}
                     THEN Flag(b2, FALSE, Sig12Opt(optDiff), rec)
                     ELSE b2
-          IN /\ bad' = b3
+              b4 == IF wrongDecl # {}
+                    THEN LET v == FirstByPlan(wrongDecl) IN
+                         Flag(b3, FALSE, Sig12G(v, "graph_declared", decl[v], actual[v]), rec)
+                    ELSE b3
+          IN /\ bad' = b4
              /\ cnt' = BumpBy(Bump(Bump(cnt, "runs"), "compared"), "graph_values", Cardinality(DOMAIN actual))
      ELSE /\ UNCHANGED bad
           /\ cnt' = Bump(Bump(cnt, "runs"), "ref_failed")
